@@ -315,6 +315,13 @@ def gen_job(job_id, name, params=None, B=2, source_filter=None):
                     col += [z3.Or(x == 0, *[x == c_ for c_ in SC.UNIT_EXACT]) for x in t.a.reshape(-1)]
         if col:
             E_._sync_axioms()
+            # candidate 0: collinear AND every [0,1) draw a coarse dyadic value -- exactly representable, far from the
+            # degenerate corners (coinciding points, clamp thresholds) where float32 and the reals model part ways, so a
+            # violation that exists there has a margin the float32 replay keeps
+            dy = [z3.Or(*[x == z3.RealVal(c_) for c_ in ("0", "1/4", "1/2", "3/4", "7/8")]) for kind, t in T.RANDOM_LOG if kind == "rand" and t.dtype.is_floating_point
+                  for x in t.a.reshape(-1) if is_sym(x) and z3.is_real(x)]
+            if dy and E_.check(neg, *col, *dy, *DS.collinear_axioms()) == z3.sat:
+                out.append(request(E_.model(), "collinear-dyadic"))
             if E_.check(neg, *col, *DS.collinear_axioms()) == z3.sat:
                 out.append(request(E_.model(), "collinear"))
         if E_.check(neg) == z3.sat:
